@@ -172,9 +172,13 @@ def subst_bv(v, d, elem, k: int):
 
 
 def _unwrap_seq(it):
-    while it[0] == "list" and len(it[1]) == 1 and it[1][0][0] == "spread":
-        it = it[1][0][1]
-    return it
+    while True:
+        if it[0] == "list" and len(it[1]) == 1 and it[1][0][0] == "spread":
+            it = it[1][0][1]
+        elif it[0] == "call" and it[1] in ("tuple", "list", "iter") and len(it[2]) == 1 and not it[3]:
+            it = it[2][0]  # iterating a copy of a sequence is iterating the sequence
+        else:
+            return it
 
 
 def rename_binder(v, d_from: int, d_to: int):
@@ -605,6 +609,11 @@ def show(v, top=True) -> str:
         return "*" + show(v[1])
     if t == "when":
         return f"({show(v[2])} when {show(v[1])})"
+    if t == "obj":
+        return f"<new {show(v[1])}>"
+    if t == "ev":
+        a = [show(x) for x in v[2]] + [f"{k}={show(x)}" for k, x in v[3]]
+        return f".{v[1]}({', '.join(a)})"
     if t == "kv":
         return f"{show(v[1])}: {show(v[2])}"
     if t == "kadd":
@@ -963,6 +972,9 @@ class AV:
         for k in assigned:
             if k in fr.env:
                 inner_env[k] = ("acc", d, k)
+                pv_ = fr.env[k]
+                if isinstance(pv_, tuple) and pv_ and pv_[0] == "call" and pv_[1].split(".")[-1][:1].isupper() and pv_[1].split(".")[-1] not in ("OrderedDict",):
+                    inner_env["<obj:" + k + ">"] = True
         known = it
         if known[0] == "c" and isinstance(known[1], tuple):
             known = ("list", tuple(C(x) for x in known[1]))
@@ -1117,6 +1129,8 @@ class AV:
             if new[0] == "list" and new[1] and new[1][0] == ("spread", acc) and not has(("x",) + new[1][1:], "acc"):
                 comp = mk_comp(d, it, new[1][1:])
                 base_ = _as_events(old) if old[0] in ("dict", "call") and _as_events(old) is not None else old
+                if inner.env.get("<obj:" + k + ">") and old[0] == "call":
+                    base_ = ("list", (("obj", old),))
                 fr.env[k] = mk_list(_spread_items(base_) + (("spread", comp),))
                 continue
             # string accumulation: new = acc + parts
@@ -1240,6 +1254,15 @@ class AV:
                     new.update(dict(kw))
                     fr.env[name] = ("dict", tuple(new.items()))
                     return
+            objish = (cur[0] == "call" and cur[1][:1].isupper() or (cur[0] == "call" and cur[1].split(".")[-1][:1].isupper())) or (cur[0] == "list" and cur[1] and cur[1][0][0] == "obj") or (cur[0] == "acc" and fr.env.get("<obj:" + name + ">"))
+            if objish and m not in ("pop", "remove", "clear", "sort", "reverse", "discard"):
+                # a method called for its effect on an object built by a constructor: recorded as an event on it
+                base = cur if cur[0] in ("list", "acc") else ("list", (("obj", cur),))
+                fr.env["<obj:" + name + ">"] = True
+                a_ = tuple(("spread", self._ev(x.value, fr)) if isinstance(x, ast.Starred) else self._ev(x, fr) for x in node.args)
+                k_ = tuple(sorted((k.arg or "**", self._ev(k.value, fr)) for k in node.keywords))
+                fr.env[name] = mk_list(_items(base) + (("ev", m, a_, k_),))
+                return
             if m in ("append", "add", "extend", "update", "insert", "pop", "remove", "clear", "sort", "reverse", "setdefault", "discard") :
                 fr.env[name] = unk(f"{name}.{m}(...) not modelled")
                 return
